@@ -731,6 +731,19 @@ pub fn check_c10(v: &View) -> Findings {
                 }
             }
             x if is_str_expr_end(x) => {
+                // "missing closers are supplied as virtual tokens and reported": a closer that is
+                // not the closing quote itself stands for a string cut off by end of input and
+                // carries its own UnterminatedStringLiteral diagnostic
+                if x == TokenType::StringExprEnd && &v.src[t.b0..t.b1] != "\"" {
+                    let named = v.errors_naming(i).any(|e| e.error_kind() == ErrorKind::UnterminatedStringLiteral);
+                    if !named {
+                        f.push(Finding::new(
+                            "C10.reported",
+                            "virtual-string-closer-without-error",
+                            format!("StringExprEnd token {i} ({:?}) is not a closing quote and no UnterminatedStringLiteral error names it", &v.src[t.b0..t.b1]),
+                        ));
+                    }
+                }
                 depth -= 1;
                 if depth < 0 {
                     f.push(Finding::new(
@@ -753,6 +766,24 @@ pub fn check_c10(v: &View) -> Findings {
                             toks.get(i + 2).map(|a| a.ty)
                         ),
                         format!("DatalinesStart token {i} not followed by DatalinesData, SEMI"),
+                    ));
+                }
+            }
+            TokenType::DatalinesData if toks.get(i + 1).is_some_and(|a| a.ty == TokenType::SEMI && a.b0 == a.b1) => {
+                // a virtual terminator is reported
+                let at = toks[i + 1].b0;
+                if !v.errors().iter().any(|e| e.error_kind() == ErrorKind::UnterminatedDatalines && e.at_byte_offset() as usize == at) {
+                    f.push(Finding::new(
+                        "C10.reported",
+                        "virtual-datalines-terminator-without-error",
+                        format!("zero-width terminator after DatalinesData token {i} and no UnterminatedDatalines error at byte {at}"),
+                    ));
+                }
+                if i == 0 || toks[i - 1].ty != TokenType::DatalinesStart {
+                    f.push(Finding::new(
+                        "C10.datalines",
+                        "data-without-start",
+                        format!("DatalinesData token {i} not preceded by DatalinesStart"),
                     ));
                 }
             }
